@@ -13,17 +13,20 @@
   `validate_block_length`).
 
   * `*_tie`: generated definition = hand-written step / loop.  The C++ computes in
-    `offset_t` = `std::uint64_t`; the hand model in `Nat`.  The ties of the steps
-    that add hold when the sum fits (`NoWrap`, `CompositeFits`, `MembersFits`);
-    `nowrap_needed` shows that the hypothesis cannot be dropped and
-    `wrap_accepts_overlap` what the C++ does then.  The C++ `throw_error`s are
-    compared through `render` (tag = leading words of the format string + the two
-    numbers -> the hand model's message).
+    `offset_t` = `std::uint64_t`; the hand model in `Nat`.  Since fix 0032 both
+    reject a member whose offset + size exceeds 2^64 - 1, so no step can wrap and
+    the ties need no no-overflow hypothesis any more — only that the *inputs* are
+    `offset_t` values (`cur < 2^64`, custom offsets `< 2^64`: the parser guarantees
+    it; for accepted layouts it follows, `compositeTyped_of_ok`, `membersTyped_of_ok`).
+    `overflow_witness_*`: the schema that used to wrap is rejected by the model and
+    by the generated code.  The C++ `throw_error`s are compared through `render`
+    (tag = leading words of the format string + the two numbers -> the hand
+    model's message).
   * `extracted_*`: the facts the layout theorems (C01, C02, C08: `resolve_wf`,
     `accepted_no_overlap`, `accepted_members_in_block`) rest on, restated for the
     generated definitions: stored offset >= running offset, new running offset =
-    offset + size, custom offset below the minimum => this error, accepted custom
-    blockLength >= computed.
+    offset + size <= 2^64 - 1, custom offset below the minimum => this error, offset +
+    size above 2^64 - 1 => that error, accepted custom blockLength >= computed.
   * `compLeaves_step`, `vElementOffset_step`, `vFields_step`, `vLevelValues_step`:
     the loops of both hand models (`Schema/Resolve.lean`, `Schema/Rules.lean`) take
     exactly these steps.
@@ -31,11 +34,16 @@
     `level_layout_extracted`, `message_layout_extracted`: the composite sizes and
     block lengths of every layout the hand model accepts are the ones the
     generated loop skeletons compute (from 0, step by step, final offset = size /
-    argument of `validate_block_length`).
+    argument of `validate_block_length`) — without side condition.
+  * `compLeaves_no_wrap`, `fieldLeaves_no_wrap`, `accepted_composite_no_wrap`,
+    `accepted_level_no_wrap`: what fix
+    0032 buys: in every accepted composite / level every member ends at or before
+    the size / computed block length, which is at most 2^64 - 1.
 -/
 import Sbepp.Schema.Resolve
 import Sbepp.Schema.Rules
 import Sbepp.Extracted.ValidatorLayout
+import Sbepp.Lemmas.ResolveWF
 
 namespace Sbepp.Schema.LayoutTie
 open Sbepp Sbepp.Schema
@@ -50,39 +58,80 @@ end E
 /-- the message the hand model gives a `throw_error` of the layout rules (tag = leading words of the C++ format
     string, then the two numbers) -/
 def render : E.Thrown → String
-  | (tag, [a, b]) => layoutMsg tag a b
+  | (tag, [a, b]) => if tag = "offset" then overflowMsg a b else layoutMsg tag a b
   | (tag, _) => tag
+
+theorem render_tooSmall (a b : Nat) : render ("custom offset", [a, b]) = layoutMsg "custom offset" a b := by
+  simp [render]
+theorem render_blockLength (a b : Nat) : render ("custom `blockLength`", [a, b]) = layoutMsg "custom `blockLength`" a b := by
+  simp [render]
+theorem render_overflow (a b : Nat) : render ("offset", [a, b]) = overflowMsg a b := by
+  simp [render]
 
 /-- 2^64: `offset_t`, `block_length_t`, `std::size_t` -/
 def U64 : Nat := 18446744073709551616
 
-/-- the step does not overflow `offset_t` -/
-def NoWrap (custom : Option Nat) (cur size : Nat) : Prop := custom.getD cur + size < U64
+/-- `offsetMax` of the hand model is `std::numeric_limits<offset_t>::max()` for the width the translator read -/
+theorem offsetMax_eq : offsetMax + 1 = U64 := by decide
+
+/-- typing of the inputs: the running offset and the custom offset are `offset_t` values -/
+def Typed (custom : Option Nat) (cur : Nat) : Prop := cur < U64 ∧ ∀ o, custom = some o → o < U64
+
+/-- the overflow test of the C++ (`enc_size > max - current_offset`, computed in `offset_t`) on an `offset_t` value -/
+theorem overflow_test {off : Nat} (size : Nat) (h : off < U64) :
+    (size > E.wrap64 (18446744073709551615 + 18446744073709551616 - off)) ↔ offsetMax < off + size := by
+  unfold Sbepp.Extracted.ValidatorLayout.wrap64 offsetMax
+  unfold U64 at h
+  omega
 
 theorem wrap64_of_lt {n : Nat} (h : n < U64) : E.wrap64 n = n := by
   unfold Sbepp.Extracted.ValidatorLayout.wrap64; exact Nat.mod_eq_of_lt h
 
 /-! ## the three steps -/
 
-/-- `validate_field_offset` of the C++ = `offsetStep` -/
-theorem validate_field_offset_tie (size : Nat) (custom : Option Nat) (cur : Nat) (h : NoWrap custom cur size) :
+theorem field_step_aux (lo : Nat) {off : Nat} (size : Nat) (h : off < U64) :
+    (Except.mapError render
+      (if size > E.wrap64 (18446744073709551615 + 18446744073709551616 - off) then
+        (Except.error ("offset", [off, size]) : Except E.Thrown (Nat × Nat))
+       else .ok (lo, E.wrap64 (off + size)))) =
+    (if offsetMax < off + size then .error (overflowMsg off size) else .ok (lo, off + size)) := by
+  by_cases hov : offsetMax < off + size
+  · rw [if_pos ((overflow_test size h).mpr hov), if_pos hov]
+    simp only [Except.mapError, render_overflow]
+  · rw [if_neg (fun hx => hov ((overflow_test size h).mp hx)), if_neg hov]
+    have : off + size < U64 := by have := offsetMax_eq; omega
+    simp only [Except.mapError, wrap64_of_lt this]
+
+/-- `validate_field_offset` of the C++ = `offsetStep` (inputs `offset_t` values) -/
+theorem validate_field_offset_tie (size : Nat) (custom : Option Nat) (cur : Nat) (h : Typed custom cur) :
     (E.validate_field_offset size custom cur).mapError render = offsetStep custom cur size := by
   unfold Sbepp.Extracted.ValidatorLayout.validate_field_offset offsetStep storedOffset
-  unfold NoWrap at h
   cases custom with
-  | none =>
-    simp only [Option.getD_none] at h
-    simp only [wrap64_of_lt h]
-    rfl
+  | none => exact field_step_aux cur size h.1
   | some o =>
-    simp only [Option.getD_some] at h
     by_cases ho : o < cur
-    · simp only [ho, if_true]; rfl
-    · simp only [ho, if_false, wrap64_of_lt h]; rfl
+    · simp only [ho, if_true, Except.mapError, render_tooSmall]
+    · simp only [ho, if_false]
+      exact field_step_aux o size (h.2 o rfl)
+
+theorem elem_step_aux {off : Nat} (size : Nat) (h : off < U64) :
+    (Except.mapError render
+      (if size > E.wrap64 (18446744073709551615 + 18446744073709551616 - off) then
+        (Except.error ("offset", [off, size]) : Except E.Thrown (Option Nat × Nat))
+       else .ok (some off, E.wrap64 (off + size)))) =
+    (Except.map (fun p => (some p.1, p.2))
+      (if offsetMax < off + size then (Except.error (overflowMsg off size) : Except String (Nat × Nat))
+       else .ok (off, off + size))) := by
+  by_cases hov : offsetMax < off + size
+  · rw [if_pos ((overflow_test size h).mpr hov), if_pos hov]
+    simp only [Except.mapError, Except.map, render_overflow]
+  · rw [if_neg (fun hx => hov ((overflow_test size h).mp hx)), if_neg hov]
+    have : off + size < U64 := by have := offsetMax_eq; omega
+    simp only [Except.mapError, Except.map, wrap64_of_lt this]
 
 /-- `validate_element_offset` of the C++ = skip constants, else `offsetStep` -/
 theorem validate_element_offset_tie (isConst : Bool) (size : Nat) (custom : Option Nat) (cur : Nat)
-    (h : isConst = false → NoWrap custom cur size) :
+    (h : isConst = false → Typed custom cur) :
     (E.validate_element_offset isConst size custom cur).mapError render =
       if isConst then .ok (none, cur) else (offsetStep custom cur size).map (fun p => (some p.1, p.2)) := by
   unfold Sbepp.Extracted.ValidatorLayout.validate_element_offset offsetStep storedOffset
@@ -90,18 +139,14 @@ theorem validate_element_offset_tie (isConst : Bool) (size : Nat) (custom : Opti
   | true => rfl
   | false =>
     have h := h rfl
-    unfold NoWrap at h
     simp only [Bool.false_eq_true, if_false]
     cases custom with
-    | none =>
-      simp only [Option.getD_none] at h
-      simp only [wrap64_of_lt h]
-      rfl
+    | none => exact elem_step_aux size h.1
     | some o =>
-      simp only [Option.getD_some] at h
       by_cases ho : o < cur
-      · simp only [ho, if_true]; rfl
-      · simp only [ho, if_false, wrap64_of_lt h]; rfl
+      · simp only [ho, if_true, Except.mapError, Except.map, render_tooSmall]
+      · simp only [ho, if_false]
+        exact elem_step_aux size (h.2 o rfl)
 
 /-- `validate_block_length` of the C++ = `blockLengthStep` (= `Schema.blockLength`); no arithmetic, no hypothesis -/
 theorem validate_block_length_tie :
@@ -112,33 +157,32 @@ theorem validate_block_length_tie :
   | none => rfl
   | some b =>
     by_cases hb : b < actual
-    · simp only [hb, if_true]; rfl
+    · simp only [hb, if_true, Except.mapError, render_blockLength]
     · simp only [hb, if_false]; rfl
 
-/-- the hypothesis of the two offset ties cannot be dropped: a custom offset of 2^64 − 4 followed by four bytes
-    wraps the running offset to 0 in the C++, to 2^64 in the hand model -/
-theorem nowrap_needed :
-    (E.validate_field_offset 4 (some 18446744073709551612) 0).mapError render ≠
-      offsetStep (some 18446744073709551612) 0 4 := by
-  have h1 : (E.validate_field_offset 4 (some 18446744073709551612) 0).mapError render =
-      .ok (18446744073709551612, 0) := by rfl
-  have h2 : offsetStep (some 18446744073709551612) 0 4 = .ok (18446744073709551612, 18446744073709551616) := by rfl
-  rw [h1, h2]
-  intro h
-  simp at h
-
-/-- … and what the C++ then does: the next element is placed at offset 0 and the composite gets size 4, although its
-    first element occupies [2^64 − 4, 2^64) (observed on the real sbeppc: the schema is accepted) -/
-theorem wrap_accepts_overlap :
+/-- regression (fix 0032, `fixes/0032-witness-schema.xml`): a custom offset of 2^64 − 4 followed by four bytes used to
+    wrap the running offset to 0 (the next element was placed at 0, the composite got size 4).  Now the generated
+    code rejects it ... -/
+theorem overflow_witness_extracted :
     E.validate_encoding_composite [⟨false, 4, some 18446744073709551612⟩, ⟨false, 4, none⟩] =
-      .ok ([some 18446744073709551612, some 0], 4) := by rfl
+      .error ("offset", [18446744073709551612, 4]) := by rfl
+
+/-- ... and so does the hand model, with the same diagnostic -/
+theorem overflow_witness_model :
+    offsetStep (some 18446744073709551612) 0 4 = .error (overflowMsg 18446744073709551612 4) := by rfl
+
+/-- the acceptance twin: the largest offset at which four bytes still fit -/
+theorem overflow_witness_twin :
+    E.validate_encoding_composite [⟨false, 4, some 18446744073709551611⟩] =
+      .ok ([some 18446744073709551611], 18446744073709551615) ∧
+    offsetStep (some 18446744073709551611) 0 4 = .ok (18446744073709551611, 18446744073709551615) := ⟨by rfl, by rfl⟩
 
 /-- non-vacuity: a composite `a:uint32, k:constant, b:uint16 offset=8, c:uint32` — `c` lands at 10 and the size is 14
     (the shape on which `current_offset += *element.offset` would give 14 and 18) -/
 example : E.validate_encoding_composite [⟨false, 4, none⟩, ⟨true, 1, none⟩, ⟨false, 2, some 8⟩, ⟨false, 4, none⟩] =
     .ok ([some 0, none, some 8, some 10], 14) := by rfl
 
-example : NoWrap (some 8) 4 2 := by unfold NoWrap U64; decide
+example : Typed (some 8) 4 := ⟨by unfold U64; decide, fun o h => by cases h; unfold U64; decide⟩
 
 /-- non-vacuity: fields `x:uint32`, a constant, `y:uint16 offset=8` with `blockLength=16`; and a too small one -/
 example : E.validate_members [⟨.required, 0, 4, true, none, .required⟩, ⟨.required, 0, 1, true, none, .constant⟩,
@@ -149,29 +193,45 @@ example : E.validate_members [⟨.required, 0, 4, true, none, .required⟩] (som
 
 /-! ## what the layout theorems rest on, for the generated definitions -/
 
-/-- an accepted element starts at or behind the running offset; the new running offset is its end (mod 2^64) -/
-theorem extracted_field_offset_ok {size : Nat} {custom : Option Nat} {cur off next : Nat}
-    (h : E.validate_field_offset size custom cur = .ok (off, next)) :
-    cur ≤ off ∧ next = E.wrap64 (off + size) ∧ (custom = some off ∨ custom = none ∧ off = cur) := by
-  unfold Sbepp.Extracted.ValidatorLayout.validate_field_offset at h
+theorem offsetStep_ok {custom : Option Nat} {cur size off next : Nat} (h : offsetStep custom cur size = .ok (off, next)) :
+    off = custom.getD cur ∧ next = off + size ∧ cur ≤ off ∧ off + size ≤ offsetMax := by
+  unfold offsetStep storedOffset at h
   cases custom with
   | none =>
-    simp only [Except.ok.injEq, Prod.mk.injEq] at h
-    obtain ⟨rfl, rfl⟩ := h
-    exact ⟨Nat.le_refl _, rfl, Or.inr ⟨rfl, rfl⟩⟩
-  | some o =>
     simp only at h
     split at h
     · simp at h
-    · rename_i ho
-      simp only [Except.ok.injEq, Prod.mk.injEq] at h
+    · simp only [Except.ok.injEq, Prod.mk.injEq] at h
       obtain ⟨rfl, rfl⟩ := h
-      exact ⟨by omega, rfl, Or.inl rfl⟩
+      exact ⟨rfl, rfl, Nat.le_refl _, by omega⟩
+  | some o =>
+    simp only at h
+    by_cases ho : o < cur
+    · simp [ho] at h
+    · simp only [ho, if_false] at h
+      split at h
+      · simp at h
+      · simp only [Except.ok.injEq, Prod.mk.injEq] at h
+        obtain ⟨rfl, rfl⟩ := h
+        exact ⟨rfl, rfl, by omega, by omega⟩
 
-/-- … without overflow: new running offset = offset + size -/
-theorem extracted_field_offset_next {size : Nat} {custom : Option Nat} {cur off next : Nat}
-    (h : E.validate_field_offset size custom cur = .ok (off, next)) (hfit : off + size < U64) : next = off + size := by
-  rw [(extracted_field_offset_ok h).2.1, wrap64_of_lt hfit]
+theorem ok_of_mapError_ok {α : Type} {r : Except E.Thrown α} {x : α} (h : r.mapError render = .ok x) : r = .ok x := by
+  cases r with
+  | error t => simp [Except.mapError] at h
+  | ok y => simpa [Except.mapError] using h
+
+/-- an accepted element starts at or behind the running offset; the new running offset is its end, and `offset_t`
+    holds it (no wrap) -/
+theorem extracted_field_offset_ok {size : Nat} {custom : Option Nat} {cur off next : Nat} (ht : Typed custom cur)
+    (h : E.validate_field_offset size custom cur = .ok (off, next)) :
+    cur ≤ off ∧ next = off + size ∧ off + size ≤ offsetMax ∧ (custom = some off ∨ custom = none ∧ off = cur) := by
+  have ht' := validate_field_offset_tie size custom cur ht
+  rw [h] at ht'
+  obtain ⟨hoff, hnext, hle, hmax⟩ := offsetStep_ok ht'.symm
+  refine ⟨hle, hnext, hmax, ?_⟩
+  cases custom with
+  | none => exact Or.inr ⟨rfl, hoff⟩
+  | some o => exact Or.inl (by rw [hoff]; rfl)
 
 /-- a custom offset below the running offset is rejected, with this `throw_error` -/
 theorem extracted_field_offset_below_min (size : Nat) {o cur : Nat} (h : o < cur) :
@@ -179,20 +239,45 @@ theorem extracted_field_offset_below_min (size : Nat) {o cur : Nat} (h : o < cur
   unfold Sbepp.Extracted.ValidatorLayout.validate_field_offset
   simp only [h, if_true]
 
-/-- … and that is the only way it fails -/
+/-- an element that does not end at or before 2^64 − 1 is rejected, with this `throw_error` (fix 0032) -/
+theorem extracted_field_offset_overflow (size : Nat) {custom : Option Nat} {cur : Nat} (ht : Typed custom cur)
+    (hle : cur ≤ custom.getD cur) (hov : offsetMax < custom.getD cur + size) :
+    E.validate_field_offset size custom cur = .error ("offset", [custom.getD cur, size]) := by
+  unfold Sbepp.Extracted.ValidatorLayout.validate_field_offset
+  cases custom with
+  | none =>
+    simp only [Option.getD_none] at hov ⊢
+    rw [if_pos ((overflow_test size ht.1).mpr hov)]
+  | some o =>
+    simp only [Option.getD_some] at hov hle ⊢
+    rw [if_neg (by omega), if_pos ((overflow_test size (ht.2 o rfl)).mpr hov)]
+
+/-- ... and these are the only ways it fails -/
 theorem extracted_field_offset_error {size : Nat} {custom : Option Nat} {cur : Nat} {t : E.Thrown}
-    (h : E.validate_field_offset size custom cur = .error t) :
-    ∃ o, custom = some o ∧ o < cur ∧ t = ("custom offset", [o, cur]) := by
+    (ht : Typed custom cur) (h : E.validate_field_offset size custom cur = .error t) :
+    (∃ o, custom = some o ∧ o < cur ∧ t = ("custom offset", [o, cur])) ∨
+    (cur ≤ custom.getD cur ∧ offsetMax < custom.getD cur + size ∧ t = ("offset", [custom.getD cur, size])) := by
   unfold Sbepp.Extracted.ValidatorLayout.validate_field_offset at h
   cases custom with
-  | none => simp at h
+  | none =>
+    simp only at h
+    split at h
+    · rename_i hx
+      simp only [Except.error.injEq] at h
+      exact Or.inr ⟨Nat.le_refl _, (overflow_test size ht.1).mp hx, h.symm⟩
+    · simp at h
   | some o =>
     simp only at h
     split at h
     · rename_i ho
       simp only [Except.error.injEq] at h
-      exact ⟨o, rfl, ho, h.symm⟩
-    · simp at h
+      exact Or.inl ⟨o, rfl, ho, h.symm⟩
+    · rename_i ho
+      split at h
+      · rename_i hx
+        simp only [Except.error.injEq] at h
+        exact Or.inr ⟨by simp only [Option.getD_some]; omega, (overflow_test size (ht.2 o rfl)).mp hx, h.symm⟩
+      · simp at h
 
 /-- composite elements: a constant element stores nothing and leaves the running offset alone; any other element is
     laid out exactly like a field -/
@@ -203,16 +288,21 @@ theorem extracted_element_offset_nonconst (size : Nat) (custom : Option Nat) (cu
     E.validate_element_offset false size custom cur =
       (E.validate_field_offset size custom cur).map (fun p => (some p.1, p.2)) := by
   unfold Sbepp.Extracted.ValidatorLayout.validate_element_offset Sbepp.Extracted.ValidatorLayout.validate_field_offset
+  simp only [Bool.false_eq_true, if_false]
   cases custom with
-  | none => rfl
+  | none =>
+    simp only
+    split <;> rfl
   | some o =>
-    by_cases ho : o < cur
-    · simp only [ho, if_true, Bool.false_eq_true, if_false]; rfl
-    · simp only [ho, if_false, Bool.false_eq_true]; rfl
+    simp only
+    split
+    · rfl
+    · split <;> rfl
 
 theorem extracted_element_offset_ok {size : Nat} {custom : Option Nat} {cur next : Nat} {stored : Option Nat}
-    (h : E.validate_element_offset false size custom cur = .ok (stored, next)) :
-    ∃ off, stored = some off ∧ cur ≤ off ∧ next = E.wrap64 (off + size) ∧ (custom = some off ∨ custom = none ∧ off = cur) := by
+    (ht : Typed custom cur) (h : E.validate_element_offset false size custom cur = .ok (stored, next)) :
+    ∃ off, stored = some off ∧ cur ≤ off ∧ next = off + size ∧ off + size ≤ offsetMax ∧
+      (custom = some off ∨ custom = none ∧ off = cur) := by
   rw [extracted_element_offset_nonconst] at h
   cases hf : E.validate_field_offset size custom cur with
   | error t => simp [hf, Except.map] at h
@@ -220,11 +310,16 @@ theorem extracted_element_offset_ok {size : Nat} {custom : Option Nat} {cur next
     obtain ⟨off, nx⟩ := p
     simp only [hf, Except.map, Except.ok.injEq, Prod.mk.injEq] at h
     obtain ⟨rfl, rfl⟩ := h
-    exact ⟨off, rfl, extracted_field_offset_ok hf⟩
+    exact ⟨off, rfl, extracted_field_offset_ok ht hf⟩
 
 theorem extracted_element_offset_below_min (size : Nat) {o cur : Nat} (h : o < cur) :
     E.validate_element_offset false size (some o) cur = .error ("custom offset", [o, cur]) := by
   rw [extracted_element_offset_nonconst, extracted_field_offset_below_min size h]; rfl
+
+theorem extracted_element_offset_overflow (size : Nat) {custom : Option Nat} {cur : Nat} (ht : Typed custom cur)
+    (hle : cur ≤ custom.getD cur) (hov : offsetMax < custom.getD cur + size) :
+    E.validate_element_offset false size custom cur = .error ("offset", [custom.getD cur, size]) := by
+  rw [extracted_element_offset_nonconst, extracted_field_offset_overflow size ht hle hov]; rfl
 
 /-- an accepted `blockLength` is at least the computed one: the custom one if there is one, else the computed one -/
 theorem extracted_block_length_ok {custom : Option Nat} {actual b : Nat}
@@ -267,28 +362,6 @@ theorem extracted_block_length_error {custom : Option Nat} {actual : Nat} {t : E
 
 /-! ## the loop skeletons -/
 
-theorem offsetStep_ok {custom : Option Nat} {cur size off next : Nat} (h : offsetStep custom cur size = .ok (off, next)) :
-    off = custom.getD cur ∧ next = off + size ∧ cur ≤ off := by
-  unfold offsetStep storedOffset at h
-  cases custom with
-  | none =>
-    simp only [Except.ok.injEq, Prod.mk.injEq] at h
-    obtain ⟨rfl, rfl⟩ := h
-    exact ⟨rfl, rfl, Nat.le_refl _⟩
-  | some o =>
-    simp only at h
-    split at h
-    · simp at h
-    · rename_i heq
-      split at heq
-      · simp at heq
-      · rename_i ho
-        simp only [Except.ok.injEq] at heq
-        subst heq
-        simp only [Except.ok.injEq, Prod.mk.injEq] at h
-        obtain ⟨rfl, rfl⟩ := h
-        exact ⟨rfl, rfl, by omega⟩
-
 abbrev CItem := E.validate_encoding_composite.Item
 abbrev FItem := E.validate_members.Item
 
@@ -309,29 +382,27 @@ def compositeLoop : List CItem → Nat → Except String (List (Option Nat) × N
         | .error err => .error err
         | .ok (outs, total) => .ok (some off :: outs, total)
 
-/-- no step of the loop overflows `offset_t` -/
-def CompositeFits : List CItem → Nat → Prop
-  | [], _ => True
-  | e :: rest, cur =>
-    if e.is_constant_composite_element then CompositeFits rest cur
-    else NoWrap e.offset cur e.context_size ∧ CompositeFits rest (e.offset.getD cur + e.context_size)
+/-- typing of the loop inputs: the custom offsets of the non-constant elements are `offset_t` values (the parser
+    guarantees it: `attrNotNumeric`) -/
+def CompositeTyped (items : List CItem) : Prop :=
+  ∀ e ∈ items, e.is_constant_composite_element = false → ∀ o, e.offset = some o → o < U64
 
-theorem composite_loop_tie : ∀ (items : List CItem) (cur : Nat), CompositeFits items cur →
+theorem composite_loop_tie : ∀ (items : List CItem) (cur : Nat), cur < U64 → CompositeTyped items →
     (E.validate_encoding_composite.loop items cur).mapError render = compositeLoop items cur
-  | [], _, _ => rfl
-  | e :: rest, cur, hfit => by
+  | [], _, _, _ => rfl
+  | e :: rest, cur, hcur, ht => by
     unfold Sbepp.Extracted.ValidatorLayout.validate_encoding_composite.loop compositeLoop
+    have htr : CompositeTyped rest := fun x hx => ht x (List.mem_cons_of_mem _ hx)
     by_cases hc : e.is_constant_composite_element = true
-    · simp only [CompositeFits, hc, if_true] at hfit
-      have ih := composite_loop_tie rest cur hfit
+    · have ih := composite_loop_tie rest cur hcur htr
       rw [hc, extracted_element_offset_const]
       simp only [if_true, ← ih]
       cases E.validate_encoding_composite.loop rest cur with
       | error t => rfl
       | ok p => rfl
     · have hc' : e.is_constant_composite_element = false := by simpa using hc
-      simp only [CompositeFits, hc', Bool.false_eq_true, if_false] at hfit
-      have hstep := validate_element_offset_tie false e.context_size e.offset cur (fun _ => hfit.1)
+      have hstep := validate_element_offset_tie false e.context_size e.offset cur
+        (fun _ => ⟨hcur, ht e (List.mem_cons_self ..) hc'⟩)
       simp only [Bool.false_eq_true, if_false] at hstep
       rw [hc']
       simp only [Bool.false_eq_true, if_false]
@@ -354,8 +425,8 @@ theorem composite_loop_tie : ∀ (items : List CItem) (cur : Nat), CompositeFits
           rw [ho] at hstep
           simp only [Except.mapError, Except.map, Except.ok.injEq, Prod.mk.injEq] at hstep
           obtain ⟨rfl, rfl⟩ := hstep
-          obtain ⟨hoff, hnext, _⟩ := offsetStep_ok ho
-          have ih := composite_loop_tie rest next (by rw [hnext, hoff]; exact hfit.2)
+          obtain ⟨_, hnext, _, hmax⟩ := offsetStep_ok ho
+          have ih := composite_loop_tie rest next (by have := offsetMax_eq; omega) htr
           simp only [← ih]
           cases E.validate_encoding_composite.loop rest next with
           | error t => rfl
@@ -363,10 +434,10 @@ theorem composite_loop_tie : ∀ (items : List CItem) (cur : Nat), CompositeFits
 
 /-- `validate_encoding(const sbe::composite&)` of the C++: the running offset starts at 0, every element takes the
     step, the final running offset is the composite's size -/
-theorem validate_encoding_composite_tie (items : List CItem) (h : CompositeFits items 0) :
+theorem validate_encoding_composite_tie (items : List CItem) (h : CompositeTyped items) :
     (E.validate_encoding_composite items).mapError render = compositeLoop items 0 := by
   unfold Sbepp.Extracted.ValidatorLayout.validate_encoding_composite
-  rw [← composite_loop_tie items 0 h]
+  rw [← composite_loop_tie items 0 (by unfold U64; decide) h]
   dsimp only
   cases E.validate_encoding_composite.loop items 0 with
   | error t => rfl
@@ -402,31 +473,28 @@ def membersLayout (fields : List FItem) (custom : Option Nat) : Except String (L
     | .error err => .error err
     | .ok b => .ok (outs, b)
 
-def MembersFits : List FItem → Nat → Prop
-  | [], _ => True
-  | f :: rest, cur =>
-    if fieldPresence f = .constant then MembersFits rest cur
-    else NoWrap f.offset cur (fieldSize f) ∧ MembersFits rest (f.offset.getD cur + fieldSize f)
+/-- typing of the loop inputs: the custom offsets of the non-constant fields are `offset_t` values -/
+def MembersTyped (items : List FItem) : Prop :=
+  ∀ f ∈ items, fieldPresence f ≠ .constant → ∀ o, f.offset = some o → o < U64
 
-theorem members_loop_tie : ∀ (items : List FItem) (cur : Nat), MembersFits items cur →
+theorem members_loop_tie : ∀ (items : List FItem) (cur : Nat), cur < U64 → MembersTyped items →
     (E.validate_members.loop items cur).mapError render = membersLoop items cur
-  | [], _, _ => rfl
-  | f :: rest, cur, hfit => by
+  | [], _, _, _ => rfl
+  | f :: rest, cur, hcur, ht => by
     unfold Sbepp.Extracted.ValidatorLayout.validate_members.loop membersLoop
+    have htr : MembersTyped rest := fun x hx => ht x (List.mem_cons_of_mem _ hx)
     have hsz : (if ¬ (f.is_primitive_type = true) then (f.get_encoding_size, f.get_actual_presence)
         else (f.get_primitive_type_size, f.presence)) = (fieldSize f, fieldPresence f) := by
       unfold fieldSize fieldPresence
       cases f.is_primitive_type <;> rfl
     simp only [hsz]
     by_cases hc : fieldPresence f = .constant
-    · simp only [MembersFits, if_pos hc] at hfit
-      have ih := members_loop_tie rest cur hfit
+    · have ih := members_loop_tie rest cur hcur htr
       simp only [if_pos hc, ← ih]
       cases E.validate_members.loop rest cur with
       | error t => rfl
       | ok p => rfl
-    · simp only [MembersFits, if_neg hc] at hfit
-      have hstep := validate_field_offset_tie (fieldSize f) f.offset cur hfit.1
+    · have hstep := validate_field_offset_tie (fieldSize f) f.offset cur ⟨hcur, ht f (List.mem_cons_self ..) hc⟩
       simp only [if_neg hc]
       cases hv : E.validate_field_offset (fieldSize f) f.offset cur with
       | error t =>
@@ -437,8 +505,8 @@ theorem members_loop_tie : ∀ (items : List FItem) (cur : Nat), MembersFits ite
         obtain ⟨off, next⟩ := p
         rw [hv] at hstep
         simp only [Except.mapError] at hstep
-        obtain ⟨hoff, hnext, _⟩ := offsetStep_ok hstep.symm
-        have ih := members_loop_tie rest next (by rw [hnext, hoff]; exact hfit.2)
+        obtain ⟨_, hnext, _, hmax⟩ := offsetStep_ok hstep.symm
+        have ih := members_loop_tie rest next (by have := offsetMax_eq; omega) htr
         simp only [← hstep, ← ih]
         cases E.validate_members.loop rest next with
         | error t => rfl
@@ -446,10 +514,10 @@ theorem members_loop_tie : ∀ (items : List FItem) (cur : Nat), MembersFits ite
 
 /-- `validate_members` of the C++: the running offset starts at 0, every non-constant field takes the step, the
     final running offset is what `validate_block_length` is given; its result is the stored block length -/
-theorem validate_members_tie (items : List FItem) (custom : Option Nat) (h : MembersFits items 0) :
+theorem validate_members_tie (items : List FItem) (custom : Option Nat) (h : MembersTyped items) :
     (E.validate_members items custom).mapError render = membersLayout items custom := by
   unfold Sbepp.Extracted.ValidatorLayout.validate_members membersLayout
-  rw [← members_loop_tie items 0 h, ← validate_block_length_tie]
+  rw [← members_loop_tie items 0 (by unfold U64; decide) h, ← validate_block_length_tie]
   dsimp only
   cases E.validate_members.loop items 0 with
   | error t => rfl
@@ -462,9 +530,14 @@ theorem validate_members_tie (items : List FItem) (custom : Option Nat) (h : Mem
 
 /-! ## the loops of the hand models take exactly these steps -/
 
-theorem offsetStep_of_stored {custom : Option Nat} {cur off : Nat} (size : Nat) (h : storedOffset custom cur = .ok off) :
-    offsetStep custom cur size = .ok (off, off + size) := by
-  unfold offsetStep; rw [h]
+theorem offsetStep_of_stored {custom : Option Nat} {cur off : Nat} (size : Nat) (h : storedOffset custom cur = .ok off)
+    (hfit : ¬ offsetMax < off + size) : offsetStep custom cur size = .ok (off, off + size) := by
+  unfold offsetStep; rw [h]; simp only [if_neg hfit]
+
+theorem offsetStep_overflow_of_stored {custom : Option Nat} {cur off : Nat} (size : Nat)
+    (h : storedOffset custom cur = .ok off) (hov : offsetMax < off + size) :
+    offsetStep custom cur size = .error (overflowMsg off size) := by
+  unfold offsetStep; rw [h]; simp only [if_pos hov]
 
 theorem offsetStep_error_of_stored {custom : Option Nat} {cur : Nat} {err : String} (size : Nat)
     (h : storedOffset custom cur = .error err) : offsetStep custom cur size = .error err := by
@@ -496,17 +569,20 @@ theorem compLeaves_step (types : List Elem) (fuel : Nat) (path : List String) (b
     | error err => rfl
     | ok p =>
       obtain ⟨sz, lv⟩ := p
-      simp only [offsetStep_of_stored sz hs]
-      rfl
+      simp only
+      by_cases hov : offsetMax < off + sz
+      · simp only [offsetStep_overflow_of_stored sz hs hov, if_pos hov]
+      · simp only [offsetStep_of_stored sz hs hov, if_neg hov]
+        rfl
 
-/-- `Schema.Rules.vElementOffset` (the C08 model) is the same step -/
+/-- `Schema.Rules.vElementOffset` (the C08 model) is the same step, with the two diagnostics classified -/
 theorem vElementOffset_step (types : List Elem) (p : Spec.Rules.Path) (e : Elem) (cur sz : Nat) :
     Rules.vElementOffset types p e cur sz =
       if isConstElem types e then .ok cur
-      else match offsetStep e.offset cur sz with
+      else match storedOffset e.offset cur with
         | .error _ => Rules.fail .offsetTooSmall p
-        | .ok (_, next) => .ok next := by
-  unfold Rules.vElementOffset offsetStep storedOffset
+        | .ok off => if offsetMax < off + sz then Rules.fail .offsetOverflow p else .ok (off + sz) := by
+  unfold Rules.vElementOffset Rules.vAdvance storedOffset
   by_cases hc : isConstElem types e = true
   · simp only [hc, if_true]
   · simp only [hc, Bool.false_eq_true, if_false]
@@ -516,6 +592,20 @@ theorem vElementOffset_step (types : List Elem) (p : Spec.Rules.Path) (e : Elem)
       by_cases ho : o < cur
       · simp only [ho, if_true]
       · simp only [ho, if_false]
+
+/-- ... so it accepts exactly when `offsetStep` does, with the same new running offset -/
+theorem vElementOffset_ok_iff (types : List Elem) (p : Spec.Rules.Path) (e : Elem) (cur sz next : Nat)
+    (hc : isConstElem types e = false) :
+    Rules.vElementOffset types p e cur sz = .ok next ↔ ∃ off, offsetStep e.offset cur sz = .ok (off, next) := by
+  rw [vElementOffset_step]
+  unfold offsetStep
+  simp only [hc, Bool.false_eq_true, if_false]
+  cases storedOffset e.offset cur with
+  | error err => simp [Rules.fail]
+  | ok off =>
+    by_cases hov : offsetMax < off + sz
+    · simp [hov, Rules.fail]
+    · simp [hov]
 
 /-- `Schema.Rules.vLevelValues` (the C08 model) starts with `blockLengthStep` -/
 theorem vLevelValues_step (types : List Elem) (hdr : String) (p : Spec.Rules.Path) (bl : Option Nat)
@@ -571,7 +661,9 @@ theorem compLeaves_skeleton (types : List Elem) : ∀ (elems : List Elem) (fuel 
           split at h
           · simp at h
           · rename_i sz lv1 he
-            rw [offsetStep_of_stored sz hoff] at h
+            by_cases hov : offsetMax < off + sz
+            · rw [offsetStep_overflow_of_stored sz hoff hov] at h; simp at h
+            rw [offsetStep_of_stored sz hoff hov] at h
             simp only at h
             split at h
             · simp at h
@@ -580,7 +672,7 @@ theorem compLeaves_skeleton (types : List Elem) : ∀ (elems : List Elem) (fuel 
               obtain ⟨items, offs, hd, hl⟩ := ih _ _ _ _ _ _ hr
               refine ⟨⟨false, sz, e.offset⟩ :: items, some off :: offs,
                 ListRel.cons ⟨hc'.symm, rfl, fun _ => ⟨_, _, _, _, he⟩⟩ hd, ?_⟩
-              simp only [compositeLoop, Bool.false_eq_true, if_false, offsetStep_of_stored sz hoff, hl, h.1]
+              simp only [compositeLoop, Bool.false_eq_true, if_false, offsetStep_of_stored sz hoff hov, hl, h.1]
 
 theorem compositeLoop_le : ∀ (items : List CItem) (cur : Nat) (offs : List (Option Nat)) (total : Nat),
     compositeLoop items cur = .ok (offs, total) → cur ≤ total
@@ -603,56 +695,79 @@ theorem compositeLoop_le : ∀ (items : List CItem) (cur : Nat) (offs : List (Op
         · rename_i outs t hr
           simp only [Except.ok.injEq, Prod.mk.injEq] at h
           have := compositeLoop_le rest next outs t hr
-          obtain ⟨_, hn, hle⟩ := offsetStep_ok ho
+          obtain ⟨_, hn, hle, _⟩ := offsetStep_ok ho
           omega
 
-/-- a total below 2^64 means no step overflowed -/
-theorem compositeFits_of_total : ∀ (items : List CItem) (cur : Nat) (offs : List (Option Nat)) (total : Nat),
-    compositeLoop items cur = .ok (offs, total) → total < U64 → CompositeFits items cur
-  | [], _, _, _, _, _ => trivial
-  | e :: rest, cur, offs, total, h, ht => by
+/-- what fix 0032 buys, on the skeleton: an accepted loop never leaves `offset_t` -/
+theorem compositeLoop_bounded : ∀ (items : List CItem) (cur : Nat) (offs : List (Option Nat)) (total : Nat),
+    compositeLoop items cur = .ok (offs, total) → cur ≤ offsetMax → total ≤ offsetMax
+  | [], cur, offs, total, h, hc => by
+    simp only [compositeLoop, Except.ok.injEq, Prod.mk.injEq] at h; omega
+  | e :: rest, cur, offs, total, h, hc => by
     unfold compositeLoop at h
-    unfold CompositeFits
     split at h
-    · rename_i hc
-      rw [if_pos hc]
-      split at h
+    · split at h
       · simp at h
       · rename_i outs t hr
         simp only [Except.ok.injEq, Prod.mk.injEq] at h
-        exact compositeFits_of_total rest cur outs t hr (by omega)
-    · rename_i hc
-      rw [if_neg hc]
-      split at h
+        have := compositeLoop_bounded rest cur outs t hr hc
+        omega
+    · split at h
       · simp at h
       · rename_i off next ho
         split at h
         · simp at h
         · rename_i outs t hr
           simp only [Except.ok.injEq, Prod.mk.injEq] at h
-          have hle := compositeLoop_le rest next outs t hr
-          obtain ⟨hoff, hn, _⟩ := offsetStep_ok ho
-          refine ⟨?_, ?_⟩
-          · unfold NoWrap; omega
-          · rw [← hoff, ← hn]; exact compositeFits_of_total rest next outs t hr (by omega)
+          obtain ⟨_, hn, _, hmax⟩ := offsetStep_ok ho
+          have := compositeLoop_bounded rest next outs t hr (by omega)
+          omega
 
-theorem ok_of_mapError_ok {α : Type} {r : Except E.Thrown α} {x : α} (h : r.mapError render = .ok x) : r = .ok x := by
-  cases r with
-  | error t => simp [Except.mapError] at h
-  | ok y => simpa [Except.mapError] using h
+/-- an accepted loop had `offset_t` inputs: the typing hypothesis of the tie holds for everything the model accepts -/
+theorem compositeTyped_of_ok : ∀ (items : List CItem) (cur : Nat) (offs : List (Option Nat)) (total : Nat),
+    compositeLoop items cur = .ok (offs, total) → CompositeTyped items
+  | [], _, _, _, _ => fun e he => by simp at he
+  | e :: rest, cur, offs, total, h => by
+    unfold compositeLoop at h
+    split at h
+    · rename_i hc
+      split at h
+      · simp at h
+      · rename_i outs t hr
+        have ih := compositeTyped_of_ok rest cur outs t hr
+        intro x hx hxc
+        rcases List.mem_cons.mp hx with rfl | hx
+        · rw [hc] at hxc; cases hxc
+        · exact ih x hx hxc
+    · split at h
+      · simp at h
+      · rename_i off next ho
+        split at h
+        · simp at h
+        · rename_i outs t hr
+          have ih := compositeTyped_of_ok rest next outs t hr
+          obtain ⟨hoff, _, _, hmax⟩ := offsetStep_ok ho
+          intro x hx hxc
+          rcases List.mem_cons.mp hx with rfl | hx
+          · intro o hxo
+            rw [hxo] at hoff
+            simp only [Option.getD_some] at hoff
+            have := offsetMax_eq
+            omega
+          · exact ih x hx hxc
 
 /-- **composite_size_extracted**: the size the hand model gives an accepted composite is the size the C++ loop, as
     the source states it now, computes for elements with these constants, custom offsets and sizes — starting at 0,
-    stepping by `validate_element_offset`, ending in `size = offset` -/
+    stepping by `validate_element_offset`, ending in `size = offset` — and it is at most 2^64 − 1 -/
 theorem composite_size_extracted (types : List Elem) (fuel : Nat) (path : List String) (base : Nat) (n : String)
     (o : Option Nat) (elems : List Elem) (atr : Attrs) (sz : Nat) (lv : List NLeaf)
-    (h : elemLeaves types (fuel + 1) path base (.composite n o elems atr) = .ok (sz, lv)) (hsz : sz < U64) :
+    (h : elemLeaves types (fuel + 1) path base (.composite n o elems atr) = .ok (sz, lv)) :
     ∃ items offs, ListRel (DescribesElem types) elems items ∧
-      E.validate_encoding_composite items = .ok (offs, sz) := by
+      E.validate_encoding_composite items = .ok (offs, sz) ∧ sz ≤ offsetMax := by
   simp only [elemLeaves] at h
   obtain ⟨items, offs, hd, hl⟩ := compLeaves_skeleton types elems _ _ _ _ _ _ h
-  refine ⟨items, offs, hd, ok_of_mapError_ok ?_⟩
-  rw [validate_encoding_composite_tie items (compositeFits_of_total items 0 offs sz hl hsz), hl]
+  refine ⟨items, offs, hd, ok_of_mapError_ok ?_, compositeLoop_bounded items 0 offs sz hl (by unfold offsetMax; decide)⟩
+  rw [validate_encoding_composite_tie items (compositeTyped_of_ok items 0 offs sz hl), hl]
 
 /-! ### fields and block lengths -/
 
@@ -726,6 +841,10 @@ theorem fieldLeaves_skeleton (types : List Elem) : ∀ (fs : List FieldDef) (cur
             obtain ⟨sz, lv1⟩ := szlv
             split at h
             · simp at h
+            rename_i hov
+            have hov : ¬ offsetMax < off + sz := hov
+            split at h
+            · simp at h
             · rename_i tl hr
               obtain ⟨total', lv2⟩ := tl
               simp only [Except.ok.injEq, Prod.mk.injEq] at h
@@ -758,7 +877,7 @@ theorem fieldLeaves_skeleton (types : List Elem) : ∀ (fs : List FieldDef) (cur
               have hl' : membersLoop items (off + sz) = .ok (offs, total') := hl
               have hio : it.offset = f.offset := rfl
               refine ⟨it :: items, some off :: offs, ListRel.cons hdesc hd, ?_⟩
-              simp only [membersLoop, if_neg hfp, hfs, hio, offsetStep_of_stored sz hoff, hl', h.1]
+              simp only [membersLoop, if_neg hfp, hfs, hio, offsetStep_of_stored sz hoff hov, hl', h.1]
 
 theorem membersLoop_le : ∀ (items : List FItem) (cur : Nat) (offs : List (Option Nat)) (total : Nat),
     membersLoop items cur = .ok (offs, total) → cur ≤ total
@@ -781,49 +900,76 @@ theorem membersLoop_le : ∀ (items : List FItem) (cur : Nat) (offs : List (Opti
         · rename_i outs t hr
           simp only [Except.ok.injEq, Prod.mk.injEq] at h
           have := membersLoop_le rest next outs t hr
-          obtain ⟨_, hn, hle⟩ := offsetStep_ok ho
+          obtain ⟨_, hn, hle, _⟩ := offsetStep_ok ho
           omega
 
-theorem membersFits_of_total : ∀ (items : List FItem) (cur : Nat) (offs : List (Option Nat)) (total : Nat),
-    membersLoop items cur = .ok (offs, total) → total < U64 → MembersFits items cur
-  | [], _, _, _, _, _ => trivial
-  | f :: rest, cur, offs, total, h, ht => by
+theorem membersLoop_bounded : ∀ (items : List FItem) (cur : Nat) (offs : List (Option Nat)) (total : Nat),
+    membersLoop items cur = .ok (offs, total) → cur ≤ offsetMax → total ≤ offsetMax
+  | [], cur, offs, total, h, hc => by
+    simp only [membersLoop, Except.ok.injEq, Prod.mk.injEq] at h; omega
+  | f :: rest, cur, offs, total, h, hc => by
     unfold membersLoop at h
-    unfold MembersFits
     split at h
-    · rename_i hc
-      rw [if_pos hc]
-      split at h
+    · split at h
       · simp at h
       · rename_i outs t hr
         simp only [Except.ok.injEq, Prod.mk.injEq] at h
-        exact membersFits_of_total rest cur outs t hr (by omega)
-    · rename_i hc
-      rw [if_neg hc]
-      split at h
+        have := membersLoop_bounded rest cur outs t hr hc
+        omega
+    · split at h
       · simp at h
       · rename_i off next ho
         split at h
         · simp at h
         · rename_i outs t hr
           simp only [Except.ok.injEq, Prod.mk.injEq] at h
-          have hle := membersLoop_le rest next outs t hr
-          obtain ⟨hoff, hn, _⟩ := offsetStep_ok ho
-          refine ⟨?_, ?_⟩
-          · unfold NoWrap; omega
-          · rw [← hoff, ← hn]; exact membersFits_of_total rest next outs t hr (by omega)
+          obtain ⟨_, hn, _, hmax⟩ := offsetStep_ok ho
+          have := membersLoop_bounded rest next outs t hr (by omega)
+          omega
+
+theorem membersTyped_of_ok : ∀ (items : List FItem) (cur : Nat) (offs : List (Option Nat)) (total : Nat),
+    membersLoop items cur = .ok (offs, total) → MembersTyped items
+  | [], _, _, _, _ => fun e he => by simp at he
+  | f :: rest, cur, offs, total, h => by
+    unfold membersLoop at h
+    split at h
+    · rename_i hc
+      split at h
+      · simp at h
+      · rename_i outs t hr
+        have ih := membersTyped_of_ok rest cur outs t hr
+        intro x hx hxc
+        rcases List.mem_cons.mp hx with rfl | hx
+        · exact absurd hc hxc
+        · exact ih x hx hxc
+    · split at h
+      · simp at h
+      · rename_i off next ho
+        split at h
+        · simp at h
+        · rename_i outs t hr
+          have ih := membersTyped_of_ok rest next outs t hr
+          obtain ⟨hoff, _, _, hmax⟩ := offsetStep_ok ho
+          intro x hx hxc
+          rcases List.mem_cons.mp hx with rfl | hx
+          · intro o hxo
+            rw [hxo] at hoff
+            simp only [Option.getD_some] at hoff
+            have := offsetMax_eq
+            omega
+          · exact ih x hx hxc
 
 /-- **level_layout_extracted**: the block length the hand model gives an accepted message / group level
     (`resolveMessage`, `resolveGroup`: `fieldLeaves` from 0, then `blockLength`) is the `actual_block_length` the C++
     `validate_members`, as the source states it now, stores for fields with these presences, custom offsets and sizes
-    and this custom `blockLength` -/
+    and this custom `blockLength`; the computed block length is at most 2^64 − 1 -/
 theorem level_layout_extracted (types : List Elem) (fields : List FieldDef) (custom : Option Nat) (computed b : Nat)
-    (lv : List NLeaf) (hf : fieldLeaves types 0 fields = .ok (computed, lv)) (hb : blockLength custom computed = .ok b)
-    (hfit : computed < U64) :
-    ∃ items offs, ListRel (DescribesField types) fields items ∧ E.validate_members items custom = .ok (offs, b) := by
+    (lv : List NLeaf) (hf : fieldLeaves types 0 fields = .ok (computed, lv)) (hb : blockLength custom computed = .ok b) :
+    ∃ items offs, ListRel (DescribesField types) fields items ∧ E.validate_members items custom = .ok (offs, b) ∧
+      computed ≤ offsetMax := by
   obtain ⟨items, offs, hd, hl⟩ := fieldLeaves_skeleton types fields 0 computed lv hf
-  refine ⟨items, offs, hd, ok_of_mapError_ok ?_⟩
-  rw [validate_members_tie items custom (membersFits_of_total items 0 offs computed hl hfit)]
+  refine ⟨items, offs, hd, ok_of_mapError_ok ?_, membersLoop_bounded items 0 offs computed hl (by unfold offsetMax; decide)⟩
+  rw [validate_members_tie items custom (membersTyped_of_ok items 0 offs computed hl)]
   unfold membersLayout
   rw [hl]
   show (match blockLength custom computed with | .error err => Except.error err | .ok b => .ok (offs, b)) = _
@@ -834,24 +980,34 @@ theorem vFields_step (types : List Elem) (lp : Spec.Rules.Path) (cur : Nat) (f :
     (info : Nat × Presence) (hn : Rules.vName f.name (lp ++ [f.name]) = .ok ())
     (hi : Rules.fieldInfo types (lp ++ [f.name]) f = .ok info) (hc : (info.2 == Presence.constant) = false) :
     Rules.vFields types lp cur (f :: rest) =
-      match offsetStep f.offset cur info.1 with
+      match storedOffset f.offset cur with
       | .error _ => Rules.fail .offsetTooSmall (lp ++ [f.name])
-      | .ok (_, next) => Rules.vFields types lp next rest := by
+      | .ok off =>
+        if offsetMax < off + info.1 then Rules.fail .offsetOverflow (lp ++ [f.name])
+        else Rules.vFields types lp (off + info.1) rest := by
   simp only [Rules.vFields, bind, Except.bind, hn, hi, hc, Bool.false_eq_true, if_false]
-  unfold offsetStep storedOffset
+  unfold storedOffset Rules.vAdvance
   cases f.offset with
-  | none => rfl
+  | none =>
+    simp only
+    by_cases hov : offsetMax < cur + info.1
+    · simp only [hov, if_true, Rules.fail]
+    · simp only [hov, if_false]
   | some o =>
     by_cases ho : o < cur
     · simp only [ho, if_true]
     · simp only [ho, if_false]
+      by_cases hov : offsetMax < o + info.1
+      · simp only [hov, if_true, Rules.fail]
+      · simp only [hov, if_false]
 
 /-- **message_layout_extracted**: for every message the validator model accepts, the block length of its resolved
     layout is what the C++ `validate_members` stores (for the fields as the C++ loop sees them) -/
 theorem message_layout_extracted (s : SchemaDef) (m : MessageDef) (r : NMessage) (h : resolveMessage s m = .ok r) :
     ∃ computed b lv gs ds, r.level = .mk b lv gs ds ∧ fieldLeaves s.types 0 m.fields = .ok (computed, lv) ∧
-      (computed < U64 → ∃ items offs, ListRel (DescribesField s.types) m.fields items ∧
-        E.validate_members items m.blockLength = .ok (offs, b)) := by
+      computed ≤ offsetMax ∧
+      ∃ items offs, ListRel (DescribesField s.types) m.fields items ∧
+        E.validate_members items m.blockLength = .ok (offs, b) := by
   simp only [resolveMessage, bind, Except.bind] at h
   split at h
   · simp at h
@@ -871,8 +1027,50 @@ theorem message_layout_extracted (s : SchemaDef) (m : MessageDef) (r : NMessage)
             · simp at h
             · simp only [Except.ok.injEq] at h
               subst h
-              exact ⟨computed, b, lv, gs, ds, rfl, hf,
-                fun hfit => level_layout_extracted s.types m.fields m.blockLength computed b lv hf hb hfit⟩
+              obtain ⟨items, offs, hd, hv, hbound⟩ :=
+                level_layout_extracted s.types m.fields m.blockLength computed b lv hf hb
+              exact ⟨computed, b, lv, gs, ds, rfl, hf, hbound, items, offs, hd, hv⟩
           · simp at h
+
+/-! ## what fix 0032 buys: accepted layouts never leave `offset_t` -/
+
+/-- composites: from a running offset inside `offset_t` the size stays inside -/
+theorem compLeaves_no_wrap (types : List Elem) : ∀ (elems : List Elem) (fuel : Nat) (path : List String)
+    (base cur total : Nat) (lv : List NLeaf), compLeaves types fuel path base cur elems = .ok (total, lv) →
+    cur ≤ offsetMax → total ≤ offsetMax := by
+  intro elems fuel path base cur total lv h hc
+  obtain ⟨items, offs, _, hl⟩ := compLeaves_skeleton types elems fuel path base cur total lv h
+  exact compositeLoop_bounded items cur offs total hl hc
+
+/-- levels: the computed block length stays inside `offset_t` -/
+theorem fieldLeaves_no_wrap (types : List Elem) (fs : List FieldDef) (cur total : Nat) (lv : List NLeaf)
+    (h : fieldLeaves types cur fs = .ok (total, lv)) (hc : cur ≤ offsetMax) : total ≤ offsetMax := by
+  obtain ⟨items, offs, _, hl⟩ := fieldLeaves_skeleton types fs cur total lv h
+  exact membersLoop_bounded items cur offs total hl hc
+
+/-- **accepted_composite_no_wrap**: in every composite the model accepts, every member ends at or before the
+    composite's size, and the size is at most 2^64 − 1: nothing wrapped -/
+theorem accepted_composite_no_wrap (types : List Elem) (fuel : Nat) (path : List String) (n : String)
+    (o : Option Nat) (elems : List Elem) (atr : Attrs) (sz : Nat) (lv : List NLeaf)
+    (h : elemLeaves types (fuel + 1) path 0 (.composite n o elems atr) = .ok (sz, lv)) :
+    (∀ l ∈ lv, l.off + l.size ≤ sz) ∧ sz ≤ offsetMax := by
+  have hw := ((elem_comp_ok types (fuel + 1)).1 _ _ _ _ _ h).1
+  refine ⟨fun l hl => by have := (hw l hl).2; omega, ?_⟩
+  simp only [elemLeaves] at h
+  exact compLeaves_no_wrap types elems _ _ _ _ _ _ h (by unfold offsetMax; decide)
+
+/-- **accepted_level_no_wrap**: in every message / group level the model accepts, every field ends at or before the
+    computed block length, which is at most 2^64 − 1 and at most the stored block length -/
+theorem accepted_level_no_wrap (types : List Elem) (fields : List FieldDef) (custom : Option Nat) (computed b : Nat)
+    (lv : List NLeaf) (hf : fieldLeaves types 0 fields = .ok (computed, lv)) (hb : blockLength custom computed = .ok b) :
+    (∀ l ∈ lv, l.off + l.size ≤ computed) ∧ computed ≤ offsetMax ∧ computed ≤ b := by
+  obtain ⟨_, hw, _⟩ := field_ok types fields 0 computed lv hf
+  refine ⟨fun l hl => (hw l hl).2, fieldLeaves_no_wrap types fields 0 computed lv hf (by unfold offsetMax; decide), ?_⟩
+  unfold blockLength at hb
+  split at hb
+  · split at hb
+    · simp at hb
+    · simp only [Except.ok.injEq] at hb; omega
+  · simp only [Except.ok.injEq] at hb; omega
 
 end Sbepp.Schema.LayoutTie
